@@ -218,6 +218,129 @@ fn calls(ctx: &Ctx) -> Vec<Call> {
     c
 }
 
+/// depth-2 compositions of built-ins with the composed reference value (None = error expected)
+fn chains(ctx: &Ctx) -> Vec<(String, Option<String>)> {
+    let mut out: Vec<(String, Option<String>)> = Vec::new();
+    let z = s("z");
+    let w = s("w");
+    let xy = Val::List(vec![s("x"), s("y")], Sep::Space, false);
+    let xc = Val::List(vec![s("x")], Sep::Comma, false);
+    let pq = Val::List(vec![s("p"), s("q")], Sep::Comma, false);
+    let e0 = Val::List(vec![], Sep::Undecided, false);
+    let b0 = Val::List(vec![], Sep::Undecided, true);
+    let n123 = Val::List(vec![n(1.0), n(2.0), n(3.0)], Sep::Space, false);
+    // ---- lists
+    let mut level1: Vec<(String, Val)> = Vec::new();
+    let mut base = lists(ctx.pick(3, 4));
+    base.extend(maps().into_iter().take(4));
+    for l in &base {
+        let t = l.src();
+        let mut p = |text: String, r: R| {
+            if let Ok(v) = r {
+                level1.push((text, v));
+            }
+        };
+        p(format!("append({}, z)", t), append(l, &z, None));
+        for sp in ["comma", "space", "slash"] {
+            p(format!("append({}, z, {})", t, sp), append(l, &z, Some(sp)));
+        }
+        p(format!("join({}, {})", t, xy.src()), join(l, &xy, None, None));
+        p(format!("join({}, {})", t, xc.src()), join(l, &xc, None, None));
+        p(format!("join((), {})", t), join(&e0, l, None, None));
+        p(format!("join([], {})", t), join(&b0, l, None, None));
+        p(format!("join({}, (), $bracketed: true)", t), join(l, &e0, None, Some(true)));
+        p(format!("join({}, (), comma)", t), join(l, &e0, Some("comma"), None));
+        p(format!("set-nth({}, 1, z)", t), set_nth(l, &n(1.0), &z));
+        p(format!("set-nth({}, -1, z)", t), set_nth(l, &n(-1.0), &z));
+        p(format!("zip({}, {})", t, t), zip(&[l.clone(), l.clone()]));
+        p(format!("nth(zip({}, {}), 1)", t, n123.src()), zip(&[l.clone(), n123.clone()]).and_then(|v| nth(&v, &n(1.0))));
+    }
+    for (t, v) in &level1 {
+        let mut o = |text: String, r: R| out.push((text, exp(r)));
+        o(format!("length({})", t), length(v));
+        o(format!("list-separator({})", t), separator(v));
+        o(format!("is-bracketed({})", t), is_bracketed(v));
+        o(format!("inspect({})", t), Ok(v.clone()));
+        o(format!("inspect(nth({}, -1))", t), nth(v, &n(-1.0)));
+        o(format!("inspect(nth({}, 2))", t), nth(v, &n(2.0)));
+        o(format!("inspect(index({}, z))", t), index(v, &z));
+        o(format!("inspect(append({}, w))", t), append(v, &w, None));
+        o(format!("inspect(join({}, {}))", t, pq.src()), join(v, &pq, None, None));
+        o(format!("inspect(join({}, {}))", pq.src(), t), join(&pq, v, None, None));
+        o(format!("inspect(join((), {}))", t), join(&e0, v, None, None));
+        o(format!("inspect(set-nth({}, -1, w))", t), set_nth(v, &n(-1.0), &w));
+        o(format!("inspect(zip({}, {}))", t, n123.src()), zip(&[v.clone(), n123.clone()]));
+        o(format!("inspect(list.join({}, {}, $separator: auto))", t, t), join(v, v, Some("auto"), None));
+    }
+    // ---- maps
+    let mut m1: Vec<(String, Val)> = Vec::new();
+    let nm = Val::Map(vec![(s("n"), n(1.0)), (s("a"), n(7.0))]);
+    for m in &maps() {
+        let t = m.src();
+        let mut p = |text: String, r: R| {
+            if let Ok(v) = r {
+                m1.push((text, v));
+            }
+        };
+        p(format!("map-remove({}, a)", t), map_remove(m, &[s("a")]));
+        p(format!("map-remove({}, b, zz)", t), map_remove(m, &[s("b"), s("zz")]));
+        p(format!("map-merge({}, {})", t, nm.src()), map_merge(m, &nm));
+        p(format!("map-merge({}, {})", nm.src(), t), map_merge(&nm, m));
+        p(format!("map.set({}, n, 1)", t), map_set(m, &[s("n")], &n(1.0)));
+        p(format!("map.set({}, a, x, V)", t), map_set(m, &[s("a"), s("x")], &s("V")));
+        p(format!("map.deep-merge({}, {})", t, nm.src()), deep_merge(m, &nm));
+    }
+    for (t, v) in &m1 {
+        let mut o = |text: String, r: R| out.push((text, exp(r)));
+        o(format!("inspect({})", t), Ok(v.clone()));
+        o(format!("inspect(map-keys({}))", t), map_keys(v));
+        o(format!("inspect(map-values({}))", t), map_values(v));
+        o(format!("inspect(map-get({}, a))", t), map_get(v, &[s("a")]));
+        o(format!("inspect(map-has-key({}, n))", t), map_has_key(v, &[s("n")]));
+        o(format!("inspect(map-merge({}, (b: 0, m: 1)))", t), map_merge(v, &Val::Map(vec![(s("b"), n(0.0)), (s("m"), n(1.0))])));
+        o(format!("inspect(map-remove({}, n))", t), map_remove(v, &[s("n")]));
+        o(format!("inspect(nth({}, 1))", t), nth(v, &n(1.0)));
+        o(format!("length({})", t), length(v));
+    }
+    // ---- strings
+    let mut s1: Vec<(String, Val)> = Vec::new();
+    for sv in &strings() {
+        let t = sv.src();
+        let mut p = |text: String, r: R| {
+            if let Ok(v) = r {
+                // an empty unquoted string has no documented inspect() form
+                if !matches!(&v, Val::Str(x, false) if x.is_empty() || x.contains(',')) {
+                    s1.push((text, v));
+                }
+            }
+        };
+        p(format!("str-slice({}, 2)", t), str_slice(sv, &n(2.0), None));
+        p(format!("str-slice({}, -2)", t), str_slice(sv, &n(-2.0), None));
+        p(format!("str-slice({}, 1, -2)", t), str_slice(sv, &n(1.0), Some(&n(-2.0))));
+        p(format!("str-insert({}, \"Z\", 2)", t), str_insert(sv, &q("Z"), &n(2.0)));
+        p(format!("str-insert({}, \"\u{1F600}\", -1)", t), str_insert(sv, &q("\u{1F600}"), &n(-1.0)));
+        p(format!("to-upper-case({})", t), to_upper(sv));
+        p(format!("quote({})", t), quote(sv));
+        if !matches!(sv, Val::Str(x, _) if x.is_empty() || x.contains(',')) {
+            p(format!("unquote({})", t), unquote(sv));
+        }
+    }
+    for (t, v) in &s1 {
+        let mut o = |text: String, r: R| out.push((text, exp(r)));
+        o(format!("str-length({})", t), str_length(v));
+        o(format!("inspect({})", t), Ok(v.clone()));
+        o(format!("inspect(str-index({}, \"b\"))", t), str_index(v, &q("b")));
+        o(format!("inspect(str-index({}, \"Z\"))", t), str_index(v, &q("Z")));
+        o(format!("inspect(str-slice({}, 2, -1))", t), str_slice(v, &n(2.0), Some(&n(-1.0))));
+        o(format!("inspect(str-slice({}, -3, 3))", t), str_slice(v, &n(-3.0), Some(&n(3.0))));
+        o(format!("inspect(str-insert({}, \"Y\", -2))", t), str_insert(v, &q("Y"), &n(-2.0)));
+        o(format!("inspect(to-lower-case({}))", t), to_lower(v));
+        o(format!("inspect(quote({}))", t), quote(v));
+    }
+    // results that are empty unquoted strings are not printable by inspect(): compare as "<empty>"
+    out
+}
+
 pub fn run(ctx: &Ctx) {
     // the watchdog's clock also covers the harness's own oracle work (reference models, DOM enumeration);
     // the limit is generous so that machine load cannot turn a slow case into a verdict
@@ -278,6 +401,45 @@ pub fn run(ctx: &Ctx) {
     ctx.extra("calls_per_function", json!(per_fn));
     ctx.bound(sub, &format!("lists of length 0-{} x 3 separators x brackets; indices -8..8 + 4 non-integers + wrongly typed; 9 maps with nested levels x 7 keys; 20 strings (ASCII, combining, astral) with positions -{}..{}", ctx.pick(4, 6), ctx.pick(6, 8), ctx.pick(6, 8)), true);
     ctx.sample(sub, json!({"call": "inspect(str-slice(\"\u{e9}\u{1F600}b\", 2, -2))", "reference": "\"\u{1F600}\""}));
+
+    // ---- chains: values produced by one built-in fed to another (non-initial states) ----------------
+    // Depth-2 compositions: every producer applied to every value of the universe, then every
+    // observer/producer applied to that result. The reference is the composition of the reference
+    // functions, so hidden state of a produced value (undecided separator of a one-element result,
+    // brackets, key order after remove/merge, quotedness after slice/insert) is observed.
+    let sub = "chains";
+    let ch = chains(ctx);
+    par(
+        ctx,
+        sub,
+        ch.len() as u64,
+        |i| json!({"call": ch[i as usize].0, "expected": ch[i as usize].1}),
+        |i, l| {
+            let (text, expect) = &ch[i as usize];
+            l.evals += 1;
+            let got = match compile(&format!("{}a{{b:{}}}", pre, text), &Cfg::scss()) {
+                Outcome::Ok(out) => Some(crate::checks::c08::first_decl_value(&out).unwrap_or_else(|| "<empty>".into())),
+                Outcome::Err(_) => None,
+                Outcome::Panic(p) => Some(format!("<panic: {}>", p)),
+            };
+            l.outcome(digest_str(&format!("{:?}", got)));
+            l.validated += 1;
+            if expect.is_some() {
+                l.nontrivial += 1;
+            } else {
+                l.count("expected_errors", 1);
+            }
+            let norm = |e: &Option<String>| match e.as_deref() {
+                Some("") | Some("null") => Some("<empty>".to_string()),
+                other => other.map(|s| s.to_string()),
+            };
+            if norm(&got) != norm(expect) {
+                ctx.violation(sub, &format!("builtin-chain:{}", text), &format!("{} = {:?}, composed documentation reference {:?}", text, got, expect), json!({"call": text, "observed": got, "reference": expect}));
+            }
+        },
+    );
+    ctx.bound(sub, &format!("depth-2 compositions: 14 list producers x lists of length 0-{} (+ maps as lists) x 14 list consumers; 7 map producers x 11 maps x 9 map consumers; 8 string producers x 20 strings x 9 string consumers", ctx.pick(3, 4)), true);
+    ctx.sample(sub, json!({"call": "list-separator(append(join((), (a,)), z))", "reference": "comma"}));
 
     // ---- algebraic laws that need no reference ---------------------------------------------------
     let sub = "laws";
